@@ -28,7 +28,7 @@ Definition run_env (c : cfg) (r : kenv) : jv :=
 
 Definition link_view (l : link_res) : pview :=
   {| v_pdir := true; v_stat := Some false; v_comm := bs "x"; v_cmdline := FData []; v_environ := FData [];
-     v_exe := l; v_cwd := l; v_xfiles := [] |}.
+     v_exe := l; v_cwd := l; v_paths := [] |}.
 Definition run_link (r : klink) : jv :=
   JL [ JB (k_link r);
        jv_outcome JB (pl_readlink (link_view (to_link r)) (to_link r));
@@ -39,7 +39,9 @@ Definition k_exe_link (r : kproc) : jv := jopt (fun l => JB (k_link l)) (p_exe r
 Definition run_exe (c : cfg) (r r2 : kproc) : jv :=
   JL [ JL [JB (k_cmdline (p_cmd r)); k_exe_link r; JB (k_cmdline (p_cmd r2)); k_exe_link r2];
        JL (map jv_res (run_ops c None [(view_proc r, OpExe); (view_proc r2, OpExe)]));
-       (if wf_proc r then JL [JC "Val" [JB (spec_exe r)]; JC "Val" [JB (spec_exe r)]] else jnone);
+       (if wf_proc r && (spec_cached r || wf_proc r2)
+        then JL [jv_outcome JB (spec_exe r); jv_outcome JB (if spec_cached r then spec_exe r else spec_exe r2)]
+        else jnone);
        JL [jv_outcome jv_list (pl_cmdline c (view_proc r)); jv_outcome jv_list (pl_cmdline c (view_proc r2))] ].
 
 Definition run_name (c : cfg) (r : kproc) : jv :=
